@@ -68,6 +68,7 @@ fn main() {
                 "C13" => checks::c13::run(&tier, &args),
                 "C20" => checks::c20::run(&tier, &args),
                 "C15" => checks::c15::run(&tier, &args),
+                "C08" => checks::c08::run(&tier, &args),
                 _ => { eprintln!("unknown property {id}"); 2 }
             };
             std::process::exit(code);
